@@ -10,7 +10,10 @@ mod exact;
 mod gen;
 mod mon_arith;
 mod mon_base;
+mod mon_c01;
 mod mon_c10;
+mod mon_c11;
+mod mon_c20;
 mod emit;
 mod mon_fn;
 mod mon_pow;
@@ -48,6 +51,9 @@ fn run_prop(prop: &str, c: &mut Ctx) -> bool {
         "C08" => mon_base::c08(c),
         "C09" => mon_base::c09(c),
         "C10" => mon_c10::c10(c),
+        "C20" => mon_c20::c20(c),
+        "C01" => mon_c01::c01(c),
+        "C11" => mon_c11::c11(c),
         "C12" => mon_fn::c12(c),
         "C13" => mon_pow::c13(c),
         "C14" => mon_fn::c14(c),
@@ -75,6 +81,8 @@ struct Args {
     only: Option<u64>,
     shard: Option<u64>,
     nshards: Option<u64>,
+    events: Option<u64>,
+    log: Option<(u64, u64)>,
 }
 
 fn parse_args() -> Args {
@@ -94,6 +102,8 @@ fn parse_args() -> Args {
         only: None,
         shard: None,
         nshards: None,
+        events: None,
+        log: None,
     };
     let mut i = 3;
     while i < v.len() {
@@ -113,6 +123,11 @@ fn parse_args() -> Args {
             "--only" => a.only = Some(u64::from_str_radix(val(i), 16).expect("hash")),
             "--shard" => a.shard = Some(val(i).parse().expect("shard")),
             "--nshards" => a.nshards = Some(val(i).parse().expect("nshards")),
+            "--events" => a.events = Some(val(i).parse().expect("events")),
+            "--log" => {
+                let p: Vec<u64> = val(i).split(',').map(|x| x.parse().expect("log range")).collect();
+                a.log = Some((p[0], p[1]));
+            }
             x => {
                 eprintln!("unknown option {x}");
                 std::process::exit(2);
@@ -179,6 +194,9 @@ fn main() {
                     println!();
                 }
             }
+        }
+        "stream" => {
+            mon_c11::stream(a.seed, a.shard.unwrap_or(0), a.events.unwrap_or(1024), a.log);
         }
         "emit" => {
             let mut e = emit::Emit::new(prop, a.tier, a.seed, a.shard.unwrap_or(0), a.nshards.unwrap_or(1), a.scale);
